@@ -1265,6 +1265,9 @@ impl Campaign for ConcSockCampaign {
 pub struct BlockedFlushCase {
     pub cap: u16,
     pub metric_len: u8,
+    /// false: flush issued behind a blocked emit; true: emit issued behind a blocked flush
+    #[serde(default)]
+    pub emit_behind_flush: bool,
 }
 
 pub struct BlockedFlushCampaign {
@@ -1280,8 +1283,12 @@ impl Campaign for BlockedFlushCampaign {
         6
     }
     fn strategy(&self, _tier: Tier) -> BoxedStrategy<BlockedFlushCase> {
-        (prop_oneof![Just(16u16), Just(32), Just(64), 16u16..200], 1u8..12)
-            .prop_map(|(cap, metric_len)| BlockedFlushCase { cap, metric_len })
+        (prop_oneof![Just(16u16), Just(32), Just(64), 16u16..200], 1u8..12, any::<bool>())
+            .prop_map(|(cap, metric_len, emit_behind_flush)| BlockedFlushCase {
+                cap,
+                metric_len,
+                emit_behind_flush,
+            })
             .boxed()
     }
     fn check(&self, case: &BlockedFlushCase, ctx: &Ctx) -> Outcome {
@@ -1304,6 +1311,9 @@ impl Campaign for BlockedFlushCampaign {
                 return Outcome::ok();
             }
         };
+        if case.emit_behind_flush {
+            return emit_behind_blocked_flush(case, rx, path, sock, w);
+        }
         // blocking sender
         let sink = Arc::new(BufferedUnixMetricSink::with_capacity(&path, sock, case.cap as usize));
         rx.clog();
@@ -1423,5 +1433,80 @@ impl Campaign for BlockedFlushCampaign {
             fingerprint: util::hash_json(case),
             classes: vec![if blocked { "emitter blocked inside the sink, flush issued behind it" } else { "emitter never blocked" }],
         }
+    }
+}
+
+
+/// A flush is blocked inside the sink (receiver queue full); another thread's emit
+/// waits behind it. Once both have returned, a further flush must send that metric.
+fn emit_behind_blocked_flush(case: &BlockedFlushCase, mut rx: Rx, path: PathBuf, sock: UnixDatagram, w: Duration) -> Outcome {
+    let cap = (case.cap as usize).max(32);
+    let sink = Arc::new(BufferedUnixMetricSink::with_capacity(&path, sock, cap));
+    let mut bad: Vec<String> = Vec::new();
+    let a = format!("a{}:1|c", "x".repeat((case.metric_len as usize) % 8));
+    let b = format!("b{}:2|c", "y".repeat((case.metric_len as usize) % 5));
+    if sink.emit(&a).is_err() {
+        bad.push("emit into an empty buffered sink failed".into());
+    }
+    rx.clog();
+    let s1 = sink.clone();
+    let f1 = std::thread::spawn(move || s1.flush().map_err(|e| e.to_string()));
+    std::thread::sleep(Duration::from_millis(40));
+    let flush_blocked = !f1.is_finished();
+    let s2 = sink.clone();
+    let b2 = b.clone();
+    let e = std::thread::spawn(move || s2.emit(&b2).map_err(|e| e.to_string()));
+    std::thread::sleep(Duration::from_millis(40));
+    let emit_waiting = !e.is_finished();
+    // let both proceed
+    let _ = rx.unclog();
+    let deadline = Instant::now() + w;
+    let mut got: Vec<Vec<u8>> = Vec::new();
+    while (!f1.is_finished() || !e.is_finished()) && Instant::now() < deadline {
+        got.extend(rx.recv_all(false));
+        std::thread::sleep(Duration::from_micros(200));
+    }
+    if !f1.is_finished() || !e.is_finished() {
+        bad.push("flush/emit still blocked after the receiver was drained".into());
+    } else {
+        let r1 = f1.join().unwrap_or(Err("panicked".into()));
+        let re = e.join().unwrap_or(Err("panicked".into()));
+        if let (Ok(()), Ok(_)) = (&r1, &re) {
+            // both metrics were acknowledged; an explicit flush now must leave nothing behind
+            match sink.flush() {
+                Ok(()) => {
+                    std::thread::sleep(Duration::from_millis(1));
+                    got.extend(rx.recv_all(false));
+                    let text: String = got.iter().filter(|d| d.as_slice() != FILLER).map(|d| String::from_utf8_lossy(d).into_owned()).collect();
+                    for m in [&a, &b] {
+                        let n = text.split_terminator('\n').filter(|l| *l == m.as_str()).count();
+                        if n != 1 {
+                            bad.push(format!(
+                                "metric '{}' was acknowledged, then flush() returned Ok, but it was written {} times (an emit that waited behind a blocked flush is not covered by the next flush)",
+                                m, n
+                            ));
+                        }
+                    }
+                }
+                Err(e) => bad.push(format!("flush failed with {} although the receiver is idle", e)),
+            }
+        }
+    }
+    if let Ok(s) = Arc::try_unwrap(sink) {
+        let dropper = std::thread::spawn(move || drop(s));
+        let deadline = Instant::now() + w;
+        while !dropper.is_finished() && Instant::now() < deadline {
+            let _ = rx.recv_all(false);
+            std::thread::sleep(Duration::from_micros(200));
+        }
+    }
+    Outcome {
+        verdict: match bad.first() {
+            None => Ok(()),
+            Some(b) => Err(b.clone()),
+        },
+        nontrivial: flush_blocked && emit_waiting,
+        fingerprint: util::hash_json(case),
+        classes: vec![if flush_blocked && emit_waiting { "flush blocked inside the sink, emit waiting behind it" } else { "flush did not block" }],
     }
 }
